@@ -119,7 +119,9 @@ Definition changes_to_actions (tr : renames) (lk : lookupT) (tid cid : name) (td
     let stored' := match rows_after with [] => stored | _ => stored ++ [(t, rows_after, c, pick cd true rows_after)] end in
     if is_created tr lk t c && negb defunct then (stored', undo)
     else
-      let rows_before := filter_new lk t full in
+      (* presence-before is looked up under the LATEST table key (the defunct name of a removed table),
+         since /repo commit b239974; presence-after under the root name *)
+      let rows_before := filter_new lk tid full in
       let preserved := if defunct then [] else filter_gone lk t rows_before in
       let gone := filter (fun r => negb (existsb (Z.eqb r) preserved)) rows_before in
       let undo1 := match preserved with [] => undo | _ => undo ++ [(t, preserved, c, pick cd false preserved)] end in
